@@ -102,6 +102,10 @@ def enumerate_faults(df, roots):
         for i in range(n):
             if t is int and not c.startswith("p_id") and c not in ("hh_id",):
                 F.append((f"fractional_in_int_column", f"{c}:row{i}", setval(c, i, float(df[c].iloc[i]) + 0.5, astype=float)))
+                if i % 4 == 0:  # fractional parts that are small in absolute or relative terms
+                    v0 = float(df[c].iloc[i])
+                    F.append((f"fractional_in_int_column_small", f"{c}:row{i}:+1e-7", setval(c, i, v0 + 1e-7 * max(1.0, abs(v0)), astype=float)))
+                    F.append((f"fractional_in_int_column_small", f"{c}:row{i}:+0.01", setval(c, i, v0 + 0.01, astype=float)))
             if t is bool:
                 F.append((f"non_boolean_in_bool_column", f"{c}:row{i}", setval(c, i, 2 + i % 3, astype=np.int64)))
                 F.append((f"non_boolean_in_bool_column_float", f"{c}:row{i}", setval(c, i, 0.5, astype=float)))
@@ -315,7 +319,7 @@ def summarize(results, tier, seed):
         for k, v in r["by_variant"].items():
             byv[k] = byv.get(k, 0) + v
     want = ["p_id_missing", "p_id_duplicate", "p_id_nan", "pointer_to_missing", "pointer_to_missing_negative", "pointer_to_self", "hh_level_varies",
-            "spouses_disagree", "required_column_dropped", "duplicate_column_name", "fractional_in_int_column",
+            "spouses_disagree", "required_column_dropped", "duplicate_column_name", "fractional_in_int_column", "fractional_in_int_column_small",
             "non_boolean_in_bool_column", "object_column"]
     inconclusive = [f"fault class {c} never injected" for c in want if not classes.get(c)]
     if sum(r["contract_calls"] for r in co) == 0:
